@@ -1,6 +1,7 @@
 package props
 
 import (
+	"bytes"
 	"fmt"
 	"testing"
 	"time"
@@ -29,12 +30,17 @@ type c04Sample struct {
 func init() {
 	register(&Prop{
 		ID:   "C04",
-		Rule: "each run is one adversarial client: it picks a target (every shipped matcher in default and filtered configurations, or a parsing handler: proxy_protocol, socks5, tls), TCP or UDP, and an opener - uniformly random bytes, a well-formed first message from per-protocol generators, a structure-aware mutation that keeps or breaks length-field consistency (0, 1, len-1, len, len+1, max, truncated tails, missing terminators, boundary opcodes), or a generic mutation - delivered under arbitrary segmentation and closed, reset or stalled at an arbitrary byte. Oracle: the worker process survives (a panic in a connection goroutine is a violation with the seed as replay) and no single matcher evaluation allocates more than 32 x MaxMatchingBytes (runtime.MemStats.TotalAlloc delta; one simulated goroutine runs at a time). Non-trivial: the target was evaluated on a non-empty prefix; distinct: event-log hashes.",
+		Rule: "each run is one adversarial client: it picks a target (every shipped matcher in default and filtered configurations, or a parsing handler: proxy_protocol, socks5, tls), TCP or UDP, and an opener - uniformly random bytes, a well-formed first message from per-protocol generators, a structure-aware mutation that keeps or breaks length-field consistency (0, 1, len-1, len, len+1, max, truncated tails, missing terminators, boundary opcodes), a generic mutation, short line-structured input, or a matching buffer full of minimal lines behind a valid first line (the worst case of line and header parsers) - delivered under arbitrary segmentation and closed, reset or stalled at an arbitrary byte. Oracle: the worker process survives (a panic in a connection goroutine is a violation with the seed as replay) and no single matcher evaluation allocates more than 64 x MaxMatchingBytes (runtime.MemStats.TotalAlloc delta; one simulated goroutine runs at a time). Non-trivial: the target was evaluated on a non-empty prefix; distinct: event-log hashes.",
 		Run:  runC04,
 	})
 }
 
-const c04AllocLimit = 32 * layer4.MaxMatchingBytes
+// Allocation limit per matcher evaluation. The standard library alone allocates about
+// 28 bytes per input byte when net/http parses a full matching buffer of minimal header
+// lines (measured: 230 KB for 8 KiB), so the line-oriented matchers legitimately reach
+// ~35 x MaxMatchingBytes; 64 x leaves headroom for that and stays far below anything a
+// remote length field can request (a 24-bit length is already 2048 x).
+const c04AllocLimit = 64 * layer4.MaxMatchingBytes
 
 func runC04(t *testing.T, e *worlds.Env, tier string) (bool, any) {
 	sample := &c04Sample{}
@@ -120,7 +126,38 @@ func runC04(t *testing.T, e *worlds.Env, tier string) (bool, any) {
 				layer4.VerifNewRoute([]layer4.MatcherSet{{never}}, []layer4.NextHandler{drain}),
 			}
 		}
-		switch tp.Weighted("input", 2, 2, 5, 3, 2) {
+		switch tp.Weighted("input", 2, 2, 5, 3, 2, 1) {
+		case 5:
+			// a matching buffer full of minimal lines behind (part of) a valid opener:
+			// the amplification worst case of line and header parsers
+			v := p.Valid(tp, !udp)
+			if i := bytes.IndexByte(v, '\n'); i >= 0 {
+				v = v[:i+1]
+			} else if len(v) > 32 {
+				v = v[:tp.Choose(33, "dense-keep")]
+			}
+			msg = append(msg, v...)
+			total := tp.Pick("dense-total", layer4.MaxMatchingBytes-3, 2000, layer4.MaxMatchingBytes+500, 600)
+			eol := tp.Pick2("dense-eol", "\n", "\r\n")
+			form := tp.Choose(4, "dense-form")
+			for i := 0; len(msg) < total; i++ {
+				a, b := byte('a'+i%26), byte('a'+(i/26)%26)
+				switch form {
+				case 0:
+					msg = append(msg, a, b, ':')
+				case 1:
+					msg = append(msg, a, ':', b)
+				case 2:
+					msg = append(msg, a, ':')
+				default:
+					msg = append(msg, a, b, ':', ' ', 'x')
+				}
+				msg = append(msg, eol...)
+			}
+			if tp.Prob(3, 4, "dense-end") {
+				msg = append(msg, eol...)
+			}
+			sample.Input = "dense-lines"
 		case 4:
 			// short line-structured input: k filler bytes, then CR LF / LF at every small
 			// offset (boundary values of "find the first line end" arithmetic), optionally
@@ -259,6 +296,9 @@ func runC04(t *testing.T, e *worlds.Env, tier string) (bool, any) {
 		if pm != nil {
 			sample.Evals = len(pm.Evals)
 			sample.MaxAlloc = pm.AllocMax
+			if int(pm.AllocMax) > e.S.Stats["max_alloc_bytes_per_evaluation"] {
+				e.S.Stats["max_alloc_bytes_per_evaluation"] = int(pm.AllocMax)
+			}
 			for _, ev := range pm.Evals {
 				sample.Verdicts += string("ny?!"[ev.Verdict])
 				if ev.Visible > 0 {
